@@ -1,7 +1,9 @@
 package checks
 
 import (
+	"context"
 	"fmt"
+	"os"
 	"runtime/pprof"
 	"strings"
 	"sync"
@@ -28,6 +30,7 @@ var c12Scenarios = []string{
 	"writer-registers-while-flush-after-commit", // G14
 	"register-then-workless-flush",
 	"write-lands-between-index-flush-and-sync", // SyncOnFlush: a commit that is followed by index work before it syncs
+	"writer-after-resumed-handover",            // a collector cycle picked up the hand-over file an interrupted cycle left
 	"stress",
 }
 
@@ -40,7 +43,7 @@ func init() {
 		Run:             runC12,
 		CaseTimeout:     2 * time.Minute,
 		HangIsViolation: true,
-		Rule: "store opened with BurstRate(1) and the measured flush rate forced to 1e-9 before every write (verif accessor), so every Put/Remove enters the waiting path. Gated scenarios park the writer at store.flushtick.decided / .registered / .before-block and the flusher at store.flush.after-commit and drive explicit Flush calls in each order (a flush completing between decision and registration followed only by work-less flushes - single writer with and without the started flusher; two writers around one flush; registration while a flush is between commit and notice close; registration followed by a work-less flush; with SyncOnFlush, a writer's index update landing while a commit is parked between its index flush and its syncs); stress cases run 1-6 writers with the periodic flusher (1 ms - 1 h) and/or an explicit flushing goroutine under noise delays at the flushTick/Flush/commit hooks, half of them with the background collectors at 1-3 ms on 100-400 byte primary files, so that records of the writers' keys are relocated while the writers wait; a third of all cases open the store with SyncOnFlush(true). Oracle: every notice channel handed over by the registered hook must be closed when a Flush() that the harness started after that hook event has returned nil (non-blocking receive); at the end no client goroutine is parked in flushTick; a harness Flush that does not return within 30 s is reported with the goroutine profile (deadlocked flush path). " +
+		Rule: "store opened with BurstRate(1) and the measured flush rate forced to 1e-9 before every write (verif accessor), so every Put/Remove enters the waiting path. Gated scenarios park the writer at store.flushtick.decided / .registered / .before-block and the flusher at store.flush.after-commit and drive explicit Flush calls in each order (a flush completing between decision and registration followed only by work-less flushes - single writer with and without the started flusher; two writers around one flush; registration while a flush is between commit and notice close; registration followed by a work-less flush; with SyncOnFlush, a writer's index update landing while a commit is parked between its index flush and its syncs; a writer arriving after a collector cycle resumed the hand-over file that a cancelled cycle had left behind); stress cases run 1-6 writers with the periodic flusher (1 ms - 1 h) and/or an explicit flushing goroutine under noise delays at the flushTick/Flush/commit hooks, half of them with the background collectors at 1-3 ms on 100-400 byte primary files, so that records of the writers' keys are relocated while the writers wait (half of those with a 50 us cycle time limit, so that cycles are cut short and resumed); a third of all cases open the store with SyncOnFlush(true). Oracle: every notice channel handed over by the registered hook must be closed when a Flush() that the harness started after that hook event has returned nil (non-blocking receive); at the end no client goroutine is parked in flushTick; a harness Flush that does not return within 30 s is reported with the goroutine profile (deadlocked flush path). " +
 			"non-trivial iff >=1 write registered for a notice and a flush completed after it; distinct = scenario x observed order of (flushtick, flush) hook events",
 		Assumptions: []string{
 			"flush failures are not injected ('as long as flushes keep succeeding')",
@@ -63,7 +66,7 @@ func runC12(c run.Ctx) *core.CaseResult {
 		cfg.PrimaryFileSize = []uint32{100, 200, 400}[r.IntN(3)]
 		cfg.IndexFileSize = 100
 	}
-	if r.IntN(4) == 0 {
+	if r.IntN(4) == 0 && scen != "writer-after-resumed-handover" {
 		cfg.Primary = gen.CID
 	}
 	env, err := core.NewEnv(cfg)
@@ -100,10 +103,19 @@ func runC12(c run.Ctx) *core.CaseResult {
 		res.Flag("sync-on-flush")
 		res.Add("cases_with_sync_on_flush", 1)
 	}
+	if scen == "writer-after-resumed-handover" {
+		opts = append(opts, store.GCInterval(time.Hour)) // collector present, cycles driven by the scenario
+	}
 	withGC := scen == "stress" && cfg.Primary == gen.MH && c.Index%12 < 6
 	if withGC {
 		// collectors relocating records next to waiting writers (small files so that they have work)
 		opts = append(opts, store.GCInterval(time.Duration(1+r.IntN(3))*time.Millisecond), store.PrimaryFileSize(cfg.PrimaryFileSize))
+		if c.Index%24 < 3 {
+			// cycles cut short by their time limit leave work behind (hand-over file, resume points)
+			// that the next cycle has to pick up while writers wait
+			opts = append(opts, store.GCTimeLimit(50*time.Microsecond))
+			res.Flag("collectors-time-limited")
+		}
 		res.Flag("collectors-running")
 	}
 	s, err := env.Open(opts...)
@@ -272,6 +284,44 @@ func runC12(c run.Ctx) *core.CaseResult {
 				flush() // ... but the next completed one must
 			}
 			checkReleased("registration while a flush was between commit and notice close")
+		case "writer-after-resumed-handover":
+			mp := core.MH(s)
+			if mp == nil {
+				inconclusive("no multihash primary")
+				break
+			}
+			// some superseded records, flushed (with a huge measured flush rate these calls do not wait)
+			for i := 0; i < 4; i++ {
+				s.VerifSetFlushRate(1e15)
+				s.Put(append([]byte{}, u.Keys[i%len(u.Keys)].Raw...), gen.Value(uint64(900+i), 30))
+			}
+			flush()
+			for i := 0; i < 4; i++ {
+				s.VerifSetFlushRate(1e15)
+				s.Put(append([]byte{}, u.Keys[i%len(u.Keys)].Raw...), gen.Value(uint64(910+i), 31))
+			}
+			flush()
+			// a cycle that is cancelled while it applies the hand-over file leaves that file behind ...
+			cctx, cancel := context.WithCancel(context.Background())
+			cancel()
+			mp.GC(cctx, 50)
+			if _, err := os.Stat(env.IndexPath + ".free.gc"); err != nil {
+				inconclusive("the cancelled cycle left no hand-over file")
+				break
+			}
+			// ... and the next cycle picks it up
+			mp.GC(context.Background(), 50)
+			res.Flag("window-attained")
+			wg.Add(1)
+			go func() { defer wg.Done(); write(0); close(writerDone) }()
+			if !waitCount(rt, "store.flushtick.before-block", 1, gateT) {
+				inconclusive("writer did not reach the block point")
+				break
+			}
+			for i := 0; i < 3; i++ {
+				flush()
+			}
+			checkReleased("writer after a collector cycle resumed a left-over hand-over file")
 		case "write-lands-between-index-flush-and-sync":
 			gf := hookrt.NewGate("store.commit.after-index", 1, gateT)
 			rt.AddGate(gf)
